@@ -6,7 +6,7 @@ from .. import run as R
 from ..check import Prop
 
 CRATE_ATTRS = '''#![deny(warnings)]
-#![allow(dead_code, non_camel_case_types, non_snake_case, non_upper_case_globals)]
+#![allow(dead_code)]
 '''
 PRELUDE = '''
 #[allow(unused_imports)] use ::core::cmp::Ordering;
@@ -18,6 +18,8 @@ pub fn by_eq<T: ?Sized>(_: &T, _: &T) -> bool { true }
 pub fn by_pcmp<T: ?Sized>(_: &T, _: &T) -> Option<Ordering> { None }
 pub fn by_cmp<T: ?Sized>(_: &T, _: &T) -> Ordering { Ordering::Equal }
 pub fn by_hash<T: ?Sized, S: Hasher>(_: &T, _: &mut S) {}
+pub fn by_k_cmp<T: HasKey>(a: &T, b: &T) -> Ordering { a.k().cmp(&b.k()) }
+pub fn by_k_hash<T: HasKey, S: Hasher>(a: &T, s: &mut S) { s.write_u8(a.k()) }
 pub trait Tr<X: ?Sized> {}
 impl<X: ?Sized> Tr<X> for u8 {}
 '''
@@ -107,9 +109,17 @@ class C20(Prop):
                         r = rng.random()
                         if i == by_pos:
                             # by on a (possibly generic) field: every derived comparison trait gets a function
-                            fa.append(sx.a_cmp('ord', sx.m_list(sx.cargs(by='by_cmp'))))
-                            if 'Hash' in traits:
-                                fa.append(sx.a_cmp('hash', sx.m_list(sx.cargs(by='by_hash'))))
+                            if ft is FTS[1] and rng.random() < 0.6:
+                                # the function needs `T: HasKey`: every impl derived from this attribute must carry the bound
+                                bnd = [sx.b_pred(sx.wty(T, [sx.tb_trait(['HasKey'])]))]
+                                fa.append(sx.a_cmp('ord', sx.m_list(sx.cargs(by='by_k_cmp', bnd=bnd))))
+                                if 'Hash' in traits:
+                                    fa.append(sx.a_cmp('hash', sx.m_list(sx.cargs(by='by_k_hash', bnd=bnd))))
+                                attrs_used.add('by-generic-bound')
+                            else:
+                                fa.append(sx.a_cmp('ord', sx.m_list(sx.cargs(by='by_cmp'))))
+                                if 'Hash' in traits:
+                                    fa.append(sx.a_cmp('hash', sx.m_list(sx.cargs(by='by_hash'))))
                             attrs_used.add('by@%s' % ('first' if i == 0 else 'last' if i == len(fl) - 1 else 'middle'))
                         elif r < 0.15 and ft[2]:
                             # key on a field of generic type T, with the bound the key needs
